@@ -76,6 +76,11 @@ class STr(MTr):
             if i.ty != "nat":
                 self.bad(e, "weight index")
             return V(f"(nth {i.code} {self.sparams['weights'][0]} 0)", "nat")
+        if isinstance(e.value, ast.Name) and isinstance(env.get(e.value.id), V) and env[e.value.id].ty == "natlist":
+            i = self._expr(e.slice, env, pre)            # a local holding the list of weights
+            if i.ty != "nat":
+                self.bad(e, "weight index")
+            return V(f"(nth {i.code} {env[e.value.id].code} 0)", "nat")
         self.bad(e, "subscript")
 
     def call(self, e, env, pre):
@@ -140,8 +145,11 @@ class STr(MTr):
             # `if self.weights is None or isinstance(self.weights, str): self._transform_weights(n_levels)`: normalisation of the configured
             # weights (a strategy name becomes a list, once); afterwards self.weights is the list `ws` the machine configuration carries
             a = s.body[0].value.args
-            if len(a) == 1 and isinstance(a[0], ast.Name) and isinstance(env.get(a[0].id), V) and env[a[0].id].ty == "nat":
-                return self.block(rest, env, k, ret)
+            if len(a) == 1:
+                env2 = dict(env)
+                pre_a, va = self.expr(a[0], env2)
+                if va.ty == "nat" and not pre_a:
+                    return self.block(rest, env, k, ret)
             self.bad(s, "_transform_weights argument")
         if isinstance(s, ast.For):
             if s.orelse or self.has(s.body, ast.Break) or self.has(s.body, ast.Continue):
